@@ -178,6 +178,12 @@ class Hocur(probe.Contract):
         for k in range(1, p + 1):
             s = np.linalg.svd(want.reshape(int(np.prod(n[:k])), -1), compute_uv=False)
             r = int(np.sum(s > 1e-10 * max(s[0], 1e-300)))
+            if np.any((s > 1e-15 * max(s[0], 1e-300)) & (s <= 1e-10 * max(s[0], 1e-300))):
+                # directions of relative size 1e-15..1e-10: whether the cross approximation takes them for independent columns (its
+                # own tolerance is 1e-14) is not determined by the data, and a direction it does take amplifies rounding by
+                # eps / 1e-13.  "True rank" is not well defined for this tensor: clause not decided.
+                c.skip('hocur_rank_decision_without_spectral_gap')
+                return
             true.append(r)
             if r > 0:
                 smin_rel = min(smin_rel, float(s[r - 1] / max(s[0], 1e-300)))
